@@ -45,7 +45,8 @@ def plan(tier, seed):
 
 def world(as4peer):
     w = World()
-    caps = [(1, struct.pack('!HBB', 1, 0, 1)), (2, b'')] + ([(65, struct.pack('!I', 65002))] if as4peer else [])
+    # three kinds of peer: with the 4-octet-AS capability, with other capabilities only, with no capability at all
+    caps = None if as4peer == 'nocap' else [(1, struct.pack('!HBB', 1, 0, 1)), (2, b'')] + ([(65, struct.pack('!I', 65002))] if as4peer else [])
     tr = w.establish(caps=caps)
     assert w.state_direct() == 'ESTABLISHED'
     return w, tr
@@ -133,9 +134,9 @@ def run_shard(sh):
             bad('not-rendered', ['kind:' + e['kind']], 'the decoder renders %s (%s) as %r, not as text' % (e, eb.hex(), T), dict(e=e))
             continue
         kinds_seen.add(e['kind'])
-        as4peer = True if e['kind'] in ('rt2', 'ro2') else (i % 2 == 0)
+        as4peer = True if e['kind'] in ('rt2', 'ro2') else (True, False, 'nocap')[i % 3]
         todo.append((as4peer, eb, T[0], e['kind']))
-    for as4peer, eb, T0, k in sorted(todo, key=lambda x: x[0]):
+    for as4peer, eb, T0, k in sorted(todo, key=lambda x: str(x[0])):
         loop(16, eb, T0, k, as4peer, ExtCommunity.parse)
     # ---- communities
     texts = sorted(gen.WELL_KNOWN.values()) + [n.lower() for n in gen.WELL_KNOWN.values()]
